@@ -324,7 +324,9 @@ def obligation_name(unit, e):
 def check_property(pid, tier, seed, reg, results_cache):
     t0 = time.time()
     spec = reg['properties'][pid]
-    units = spec.get('units', [])
+    own_units = spec.get('units', [])
+    # dep_units: home units of the functions that this property's functions call; only the call closure counts (see below)
+    units = own_units + [u for u in spec.get('dep_units', []) if u not in own_units]
     kani_units = spec.get('kani', []) if (tier == 'thorough' or spec.get('kani_quick')) else []
     results = []
     with cf.ThreadPoolExecutor(max_workers=int(os.environ.get('VERIF_JOBS', '6'))) as ex:
@@ -362,6 +364,54 @@ def check_property(pid, tier, seed, reg, results_cache):
     scan = set()
     rewrites = {}
     cone = []
+    # cone of the property: the functions tagged with it (or all functions of a units_all unit), closed under "calls" (by simple
+    # name, within the property's units and dep_units): a callee whose own contract fails breaks the caller's proof assumptions
+    def simple(fnname):
+        return fnname.split('::')[-1].strip()
+    allf = [(r['unit'], f) for r in results for f in r['fns']]
+    by_name = {}
+    for un, f in allf:
+        by_name.setdefault(simple(f['fn']), []).append((un, f))
+    in_cone = set()
+    work = []
+    for un, f in allf:
+        if pid in f['props'] or un in spec.get('units_all', []):
+            k = (f['fn'], f['file'])
+            if k not in in_cone:
+                in_cone.add(k)
+                work.append(f)
+    direct = set(in_cone)
+    def container(fnname):
+        return fnname.rsplit('::', 1)[0].strip() if '::' in fnname else ''
+
+    def resolves(f, call, g):
+        gc = container(g['fn'])
+        if '::' in call:
+            q = call.split('::')[0]
+            if q == 'Self':
+                fc = container(f['fn'])
+                # same implementing type (the last type name of the container header)
+                return bool(gc) and type_of(gc) == type_of(fc)
+            if q[:1].islower():
+                return not gc and os.path.basename(g['file']) in (q + '.rs',)
+            return bool(gc) and re.search(r'(?<![A-Za-z0-9_])' + re.escape(q) + r'(?![A-Za-z0-9_])', gc) is not None
+        if call.startswith('.'):
+            return bool(gc)
+        return not gc and g['file'] == f['file']
+
+    def type_of(c):
+        m = re.findall(r'[A-Z][A-Za-z0-9_]*', re.sub(r'<[^<>]*>', '', c.split(' for ')[-1]))
+        return m[-1] if m else c
+
+    while work:
+        f = work.pop()
+        for call in f.get('calls', []):
+            nm = call.split('::')[-1].lstrip('.')
+            for un, g in by_name.get(nm, []):
+                k = (g['fn'], g['file'])
+                if k not in in_cone and resolves(f, call, g):
+                    in_cone.add(k)
+                    work.append(g)
     for r in results:
         scan.update('%s: %s' % (r['unit'], a) for a in r.get('assumption_scan', []))
         smt_ms += r.get('smt_ms', 0)
@@ -378,7 +428,7 @@ def check_property(pid, tier, seed, reg, results_cache):
         if lemma_fail:
             undecided.append({'unit': r['unit'], 'why': ['specification-side lemma failed (not repository code): ' + e['text'][:400] for e in lemma_fail]})
         for f in r['fns']:
-            if pid not in f['props'] and r['unit'] not in spec.get('units_all', []):
+            if (f['fn'], f['file']) not in in_cone:
                 continue
             for k, v in f['rewrites'].items():
                 rewrites[k] = rewrites.get(k, 0) + v
@@ -401,7 +451,7 @@ def check_property(pid, tier, seed, reg, results_cache):
                 else:
                     discharged += 1
                 cone.append({'fn': f['fn'], 'file': '%s:%d' % (f['file'], f['line']), 'status': st, 'backend': 'verus', 'unit': r['unit'],
-                             'sha': f['sha']})
+                             'sha': f['sha'], 'via': 'property tag' if (f['fn'], f['file']) in direct else 'call closure'})
             elif f['rendered'] == 'stub':
                 cone.append({'fn': f['fn'], 'file': '%s:%d' % (f['file'], f['line']), 'status': 'contract-only-in-this-unit',
                              'backend': 'verus', 'unit': r['unit']})
